@@ -18,7 +18,7 @@ def suite(wt):
     ok = set()
     allp = {"actor", "cluster", "remote", "ringbuffer", "safemap"}
     log = []
-    for i in range(3):
+    for i in range(6):
         rc, out = sh(NS % "go test -vet=off -count=1 -timeout 25m ./... 2>&1", wt)
         for m in re.finditer(r'^(ok|FAIL)\s+github.com/anthdm/hollywood/(\w+)', out, re.M):
             if m.group(1) == "ok":
